@@ -97,6 +97,10 @@ def cli_opts(cfg):
         o += ["-r", "%s~%s" % (fmt_ts(a) if a else "", fmt_ts(b) if b else "")]
     for k, v in sorted(cfg.get("loc", {}).items()):
         o += ["-L", src_file(k) + ("" if v else "@hide")]
+    if cfg.get("zsize"):
+        o += ["-Z", str(cfg["zsize"])]
+    for k, z in sorted(cfg.get("ztrig", {}).items()):
+        o += ["-T", "%s@size=%d" % (NAMES[k], z)]
     for k, act in cfg.get("decor", []):          # presentation-only trigger actions: must not change the selection
         o += ["-T", "%s@%s" % (NAMES[k], act)]
     if not cfg.get("libcall", True):
@@ -151,7 +155,8 @@ def syms_for(cfg):
     plt = set(cfg.get("plt", []))
     # `_start` is in every real symbol table; uftrace graph -D hangs its synthetic depth trigger on it (without it the
     # trigger matches nothing, setup_fstack_filters() gives up and the later -C/-H/-L options are dropped)
-    return [(0x1000 + 0x100 * i, 0x80, "P" if i in plt else "T", NAMES[i]) for i in range(NFUN)] + [
+    sizes = cfg.get("sizes", {})
+    return [(0x1000 + 0x100 * i, sizes.get(i, 0x80), "P" if i in plt else "T", NAMES[i]) for i in range(NFUN)] + [
         (0x1000 + 0x100 * (NFUN + 2), 0x40, "T", "_start")]
 
 
@@ -661,7 +666,7 @@ def case_json(case):
 def cfg_json(cfg):
     j = dict(cfg)
     j["trig"] = {str(k): v for k, v in cfg.get("trig", {}).items()}
-    for key in ("loc", "loc_files"):
+    for key in ("loc", "loc_files", "sizes", "ztrig"):
         if key in j:
             j[key] = {str(k): v for k, v in j[key].items()}
     if "range" in j:
@@ -674,7 +679,7 @@ def cfg_unjson(j):
     cfg["trig"] = {int(k): v for k, v in j.get("trig", {}).items()}
     if "range" in cfg:
         cfg["range"] = tuple(cfg["range"])
-    for key in ("loc", "loc_files"):
+    for key in ("loc", "loc_files", "sizes", "ztrig"):
         if key in cfg:
             cfg[key] = {int(k): v for k, v in cfg[key].items()}
     return cfg
@@ -732,6 +737,67 @@ def verdict1(ctx, cases, res):
                       {"line": 1, "correspondence": "C07.Model driver for %s vs the real command" % e,
                        "case": case_json(cases[idx[0]]), "outputs": cases[idx[0]]["out"]}, False)
     ctx.extra["disagreements_checked"] = ctx.extra.get("disagreements_checked", 0) + sum(len(v) for v in mm.values())
+
+
+# ---------------------------------------------------------------- line 5: the size filter (-Z, size=)
+KINDS_Z = ["plain", "plain", "depth", "filter", "notrace", "fn", "fd", "time", "timetrig", "caller", "hide", "deptrig", "mix"]
+Z_SIZES = [16, 32, 48, 64, 96, 128]
+
+
+def gen_zcase(rng, kind):
+    """options of `kind` plus symbol sizes, -Z and size= triggers"""
+    cfg, f, tags = gen_case(rng, kind)
+    cfg = dict(cfg)
+    used = sorted(set(c.k for c in fcalls(f)))
+    cfg["sizes"] = {k: rng.choice(Z_SIZES) for k in range(NFUN)}
+    cfg["zsize"] = rng.choice([0, 40, 40, 70, 100])
+    cfg["ztrig"] = {k: rng.choice([1, 20, 50, 80, 130]) for k in rng.sample(used, min(len(used), rng.choice([0, 0, 1, 2])))}
+    if not cfg["zsize"] and not cfg["ztrig"]:
+        cfg["zsize"] = 70
+    return cfg, f, ["size:" + kind, "size:-Z" if cfg["zsize"] else "size:trigger-only"] + (["size:size="] if cfg["ztrig"] else [])
+
+
+def corpus5():
+    """fixed defect kept as ordinary cases: the outermost function(s) hidden by the size filter made the first record
+    that gets through look like frames inherited at fork(), and report listed them as `<0>`"""
+    f = [C(0, 1000, 9000, [C(1, 1100, 3000, [C(2, 1200, 1900, [C(3, 1300, 1800)]), C(3, 2000, 2900)]), C(4, 5100, 6000)])]
+    sizes = {0: 16, 1: 32, 2: 96, 3: 128, 4: 96}
+    return [("corpus:size-outermost-hidden", {"trig": {}, "sizes": sizes, "zsize": 48, "ztrig": {}}, f,
+             ["corpus:size-outermost-hidden", "size:-Z"]),
+            ("corpus:size-outermost-hidden", {"trig": {}, "sizes": sizes, "zsize": 0, "ztrig": {0: 20, 1: 100}}, f,
+             ["corpus:size-outermost-hidden", "size:size="])]
+
+
+def zcase_term(c):
+    cfg = c["cfg"]
+    return "{| z_case := %s;\n   z_sizes := %s; z_zs := %d%%N; z_ztr := %s |}" % (
+        case_term(c), "[%s]" % "; ".join("(%d%%N, %d%%N)" % kv for kv in sorted(cfg.get("sizes", {}).items())),
+        cfg.get("zsize", 0), "[%s]" % "; ".join("(%d%%N, %d%%N)" % kv for kv in sorted(cfg.get("ztrig", {}).items())))
+
+
+def evaluate5(ctx, cases, name="zcases"):
+    defs = "Definition zcases : list zcase := [\n%s\n].\n" % ";\n".join(zcase_term(c) for c in cases)
+    evs = [("v_size", "bad_indices ok_size zcases 0"), ("v_size_agree", "bad_indices ok_size_agree zcases 0"),
+           ("in_spec", "bad_indices (fun k => negb (spec_class (z_case k))) zcases 0"),
+           ("hides", "bad_indices (fun k => negb (z_hides k)) zcases 0")]
+    res = coq.run_cases(ctx, name, PRE, defs, evs)
+    if res is None:
+        return None
+    return {k: coq.parse_nat_list(v) for k, v in res.items()}
+
+
+def verdict5(ctx, cases, res):
+    if res is None:
+        return
+    for i in res["v_size"][:3]:
+        ctx.violation("C07 violated: with the size filter an analysis command does not show the calls of the documented "
+                      "semantics (small functions left out, their callees kept, then the other options): %s"
+                      % " ".join(cli_opts(cases[i]["cfg"])),
+                      {"line": 5, "check": "ok_size", "zcase": case_json(cases[i]), "outputs": cases[i]["out"]}, True)
+    for i in res["v_size_agree"][:3]:
+        ctx.violation("C07 violated: the analysis commands disagree on the visible calls under the size filter: %s"
+                      % " ".join(cli_opts(cases[i]["cfg"])),
+                      {"line": 5, "check": "ok_size_agree", "zcase": case_json(cases[i]), "outputs": cases[i]["out"]}, True)
 
 
 # ---------------------------------------------------------------- line 2: record time vs replay time
@@ -1282,7 +1348,7 @@ def run(ctx):
     for key, what, cfg, f, differs in w1:
         todo.append(("witness:" + key, cfg, f, ["witness:" + key]))
     todo += corpus1()
-    n = ctx.n(8, 90)
+    n = ctx.n(7, 75)
     for kind in KINDS:
         for _ in range(n if kind != "plain" else 3):
             cfg, f, tags = gen_case(rng, kind)
@@ -1303,7 +1369,7 @@ def run(ctx):
     w2 = witnesses2()
     for key, what, cfg, f, shape in w2:
         todo.append(("witness:" + key, cfg, f, ["witness:" + key], shape))
-    n2 = ctx.n(5, 60)
+    n2 = ctx.n(5, 50)
     for kind in KINDS2:
         for i in range(n2 if kind != "plain" else 2):
             cfg, f, tags = gen_case(rng, kind, eq=(i % 3 == 0))
@@ -1325,7 +1391,7 @@ def run(ctx):
         report_witness(ctx, key, what, c["rec_replay"] != c["opt_replay"], {"line": 2, "rcase": rcase_json(c)})
     # ---- line 3: several tasks
     todo = []
-    n3 = ctx.n(3, 25)
+    n3 = ctx.n(3, 20)
     for kind in KINDS3:
         for _ in range(n3 if kind != "plain" else 1):
             cfg, fs, tags = gen_mcase(rng, kind)
@@ -1342,6 +1408,22 @@ def run(ctx):
                  + (["mt:in-spec-class"] if i in inside3 else []),
                  size=size, sample=mcase_json(c) if i == 1 else None)
     verdict3(ctx, mcases, res3)
+    # ---- line 5: size filter (no model of the code: documented semantics + agreement of the commands)
+    todo = corpus5()
+    n5 = ctx.n(1, 10)
+    for kind in KINDS_Z:
+        for _ in range(n5):
+            cfg, f, tags = gen_zcase(rng, kind)
+            todo.append(("size:" + kind, cfg, f, tags))
+    zcases = line1(ctx, objdir, sp, todo)
+    res5 = evaluate5(ctx, zcases)
+    inside5 = set(res5["in_spec"]) if res5 else set()
+    hides5 = set(res5["hides"]) if res5 else set()
+    for i, c in enumerate(zcases):
+        ctx.case(key=("size", json.dumps(cfg_json(c["cfg"]), sort_keys=True), json.dumps([x.to_json() for x in c["forest"]])),
+                 nontrivial=i in hides5, tags=c["tags"] + (["size:in-spec-class"] if i in inside5 else []),
+                 size=sum(x.size() for x in c["forest"]), sample=case_json(c) if i == 0 else None)
+    verdict5(ctx, zcases, res5)
     # ---- line 4: compiled programs, real `uftrace record`
     ecases = line4(ctx, objdir, ctx.n(1, 6), ctx.n(4, 8))
     res4 = evaluate4(ctx, ecases)
@@ -1376,6 +1458,17 @@ def replay(ctx, obj):
             ctx.case(key="replay", sample=mcase_json(c))
             ctx.log("replayed (several tasks): options", " ".join(cli_opts(cfg)), "outputs", c["out"])
         verdict3(ctx, mcases, res3)
+        return
+    zj = obj.get("zcase")
+    if zj:
+        cfg = cfg_unjson(zj["cfg"])
+        f = [Call.from_json(x) for x in zj["forest"]]
+        zcases = line1(ctx, objdir, sp, [("replay", cfg, f, [])])
+        res5 = evaluate5(ctx, zcases)
+        for c in zcases:
+            ctx.case(key="replay", sample=case_json(c))
+            ctx.log("replayed (size filter): options", " ".join(cli_opts(cfg)), "outputs", c["out"])
+        verdict5(ctx, zcases, res5)
         return
     cj = obj.get("case")
     if not cj:
